@@ -21,6 +21,12 @@ import Gama.Lemmas.C06FixedPoint
 import Gama.Lemmas.StatsCompose
 namespace Gama.C06NZ
 open Gama Gama.Lin Gama.PE Gama.Ls Gama.Ls.Net Gama.LS Gama.C06FP Gama.Props.C01 Matrix
+
+theorem getD_replicate_zero (m i : Nat) : ((List.replicate m (0 : ℝ)).toArray.getD i 0) = 0 := by
+  rw [Array.getD_eq_getD_getElem?]
+  simp only [List.toArray_replicate, Array.getElem?_replicate]
+  split <;> rfl
+
 attribute [local instance] sqrtFnOfSqrtField
 attribute [local instance 2000] scalarOfField
 
@@ -30,21 +36,26 @@ noncomputable def realTrig : TrigFns ℝ := ⟨Real.sin, Real.cos, fun y x => Co
 /-- the carrier of the façade theorems with the real trigonometric functions is the `TrigScalar ℝ` of the
     linearisation lemmas -/
 theorem trig_eq : trigOfField realTrig = instTrigScalarReal := by
-  have h : (scalarOfField : Scalar ℝ) = instScalarReal := Stats.scalarReal_eq_fieldScalar.symm
-  unfold trigOfField instTrigScalarReal realTrig
-  simp only [h]
+  have h : (scalarOfField : Scalar ℝ) = instScalarReal := scalarReal_eq_fieldScalar.symm
+  show (TrigScalar.mk (toScalar := scalarOfField) Real.sin Real.cos (fun y x => Complex.arg ⟨x, y⟩) Real.arccos Real.pi) =
+    TrigScalar.mk (toScalar := instScalarReal) Real.sin Real.cos (fun y x => Complex.arg ⟨x, y⟩) Real.arccos Real.pi
+  rw [h]
 
 theorem passFrom_inst (σ : Lin.Net ℝ) (fuel : Nat) (obs : List (NObs ℝ)) (s : IdxState) :
     @passFrom ℝ (trigOfField realTrig) σ fuel obs s = @passFrom ℝ instTrigScalarReal σ fuel obs s := by
   rw [trig_eq]
+
+/-- `trigOfField realTrig` as the instance in force below -/
+@[reducible] noncomputable def fieldTrig : TrigScalar ℝ := trigOfField realTrig
+attribute [local instance 3000] fieldTrig
 
 /-- the right-hand side the call hands to the solver is zero when the observations it kept are exact -/
 theorem pe_rhs_zero (net : PE.Net ℝ) (np : NetProblem ℝ) (u : Unknowns ℝ)
     (hpe : @projectEquations ℝ (trigOfField realTrig) net = .ok (np, u))
     (hex : ∀ ob ∈ revisedObs u.net, ExactObs (sigmaOf u.net) ob) :
     np.rhs = (List.replicate np.m (0 : ℝ)).toArray := by
-  obtain ⟨net', a, F⟩ := @pe_final ℝ (trigOfField realTrig) net np u hpe
-  obtain ⟨b, Fr⟩ := @assemble_fresh ℝ (trigOfField realTrig) net' a F.asm
+  obtain ⟨net', a, F⟩ := pe_final net np u hpe
+  obtain ⟨b, Fr⟩ := assemble_fresh net' a F.asm
   have hs : sigmaOf u.net = sigmaOf net' := by rw [F.u_net]; rfl
   have hr : revisedObs u.net = revisedObs net' := by rw [F.u_net]; rfl
   rw [hs, hr] at hex
@@ -74,7 +85,7 @@ theorem exact_network_solution_zero (net : PE.Net ℝ) (np : NetProblem ℝ) (u 
     show toVec (toProblem np).m (toProblem np).rhs i = 0
     show (np.rhs.getD i.val 0 : ℝ) = 0
     rw [pe_rhs_zero net np u hpe hex]
-    simp
+    exact getD_replicate_zero _ _
   rw [hb] at hls
   -- P is positive definite: a Gram matrix of the injective whitening
   have hprep : ∃ hh, prepare np = .ok hh := by
